@@ -142,6 +142,11 @@ theorem mu_env (s s' : St) (a : Act) (ha : a.isEnv = true) (hi : Inv s) (h : ste
     split at h
     · rename_i hg; simp at h hg; subst h; mu_close0
     · simp at h
+  case envDeadline sid =>
+    simp only [step] at h
+    split at h
+    · rename_i hg; simp at h hg; subst h; mu_close0
+    · simp at h
   case envFire f =>
     simp only [step] at h
     split at h
@@ -228,6 +233,7 @@ theorem mu_rl (s s' : St) (a : Act) (hi : Inv s) (h : step E s a = some s')
         | shutdownComplete =>
           simp only [E, Choreo.expected, applyOps, List.foldl, applyOp, Option.some.injEq] at h
           subst h; mu_close hp
+        | shutdownAck => simp at h; subst h; mu_close hp
       · simp at h
     · simp at h
   · simp only [step] at h
@@ -466,11 +472,11 @@ theorem mu_call (s s' : St) (i arm : Nat) (hi : Inv s) (h : step E s (.call i ar
         · simp only [E, Choreo.expected, applyOp, ite_true, Option.some.injEq] at h; subst h; mu_call_close .shWait
       · simp at h
     | shWait =>
-      simp only [E, Choreo.expected, Bool.true_and] at h
+      simp only [E, Choreo.expected, Bool.true_and, ite_true] at h
       split at h
       · simp only [Option.ite_none_right_eq_some, Option.some.injEq] at h
-        obtain ⟨hg, rfl⟩ := h
-        mu_call_close (.fin .sh .nil)
+        obtain ⟨hg, hl, rfl⟩ := h
+        mu_call_close (.fin .sh (if s.sdAcked then .nil else .err .shutdownIncomplete))
       · simp only [Option.ite_none_right_eq_some, Option.some.injEq] at h
         obtain ⟨hg, rfl⟩ := h
         mu_call_close (.fin .sh (.err .ctx))
